@@ -11,3 +11,5 @@ import LopdfModel.Model.File
 import LopdfModel.Lemmas.Bytes
 import LopdfModel.Lemmas.Lex
 import LopdfModel.Thm.C01
+import LopdfModel.Model.Content
+import LopdfModel.Thm.C14
